@@ -35,6 +35,8 @@ type seqTx struct {
 type seqEvent struct {
 	name   string
 	rates  kit.Rates // nil: no price records in the block (ungraded)
+	weak   bool      // price records present but too few to grade: the block has a grading row and no rates
+	burn   uint64    // FCT burnt by A in this block (credited as pFCT before 2.0 only)
 	submit []seqTx
 }
 
@@ -69,6 +71,8 @@ func seqAlphabet(era drive.Era) []seqEvent {
 		{name: "K", rates: R1(), submit: one("A>A,A>B", KA, kit.Transfer(A, "pUSD", x, A), kit.Transfer(A, "pUSD", x, B))},
 		{name: "F", rates: R2(), submit: one("A:usd>fct", KA, kit.Conversion(A, "pUSD", U/10, "pFCT"))},
 		{name: "S", rates: R1(), submit: one("A:usd>dcr,A:usd>eur", KA, kit.Conversion(A, "pUSD", U/10, "pDCR"), kit.Conversion(A, "pUSD", U/10, "pEUR"))},
+		{name: "W", rates: R1(), weak: true, submit: one("A:usd>eur", KA, kit.Conversion(A, "pUSD", U/10, "pEUR"))},
+		{name: "Bn", rates: R1(), burn: 7e8, submit: one("A:fct>usd", KA, kit.Conversion(A, "pFCT", 7e8, "pUSD"))},
 		{name: "X", rates: R2(), submit: one("A:usd>jpy,A:jpy>B", KA, kit.Conversion(A, "pUSD", U/10, "pJPY"), kit.Transfer(A, "pJPY", U/10*50, B))},
 	}
 	return ev
@@ -413,7 +417,7 @@ func seqPlanFor(thorough bool) []seqEra {
 
 var seqProps = []string{"C03", "C04", "C06", "C07", "C13", "C17"}
 
-const seqRule = " PLUS the sequence family: every sequence of block events (alphabet of 16: ungraded / graded at two rate vectors, transfers A>B and B>A, conversions submitted in graded and ungraded blocks, a two-entry block, byte-identical copies of the previous entry, a PEG request, a chained batch, conversions into pFCT and into a small asset, a conversion whose output the same batch spends) up to the stated depth from a funded state in several eras; after EVERY block the balances of the three actors and the status of every submitted entry are compared with a reference ledger kept in maps; this property reports the discrepancies of its class"
+const seqRule = " PLUS the sequence family: every sequence of block events (alphabet of 18: ungraded / graded at two rate vectors, transfers A>B and B>A, conversions submitted in graded and ungraded blocks, a two-entry block, byte-identical copies of the previous entry, a PEG request, a chained batch, conversions into pFCT and into a small asset, a conversion whose output the same batch spends, a block with too few price records, an FCT burn with a pFCT conversion) up to the stated depth from a funded state in several eras; after EVERY block the balances of the three actors and the status of every submitted entry are compared with a reference ledger kept in maps; this property reports the discrepancies of its class"
 
 // files of a package are initialised in file-name order, so the drivers are registered by now
 func init() {
@@ -594,7 +598,7 @@ func (x *seqX) step(n *seqNode, ei int, report bool) (*seqNode, bool) {
 	key := fmt.Sprintf("seq/%s/%s", era.Name, strings.Join(nn.names, "."))
 	b, m := nn.b, nn.m
 	h := b.Next()
-	graded := ev.rates != nil
+	graded := ev.rates != nil && !ev.weak
 	var entries []*refBatch
 	var tx []fake.Entry
 	for oi, st := range ev.submit {
@@ -626,9 +630,15 @@ func (x *seqX) step(n *seqNode, ei int, report bool) (*seqNode, bool) {
 		entries = append(entries, rb)
 	}
 	spec := drive.BlockSpec{TX: tx}
-	if graded {
+	if ev.rates != nil {
 		spec.Rates = ev.rates
 		spec.OPRPayTo = kit.AddrStr(KM)
+		if ev.weak {
+			spec.NOPR = 3
+		}
+	}
+	if ev.burn != 0 {
+		spec.Factoid = []fake.FTx{kit.Burn(KA, ev.burn, BurnRCD(), int64(h))}
 	}
 	b.Add(spec)
 	d, err := drive.Open(nn.dir+"/db", fake.NewNode(b.Chain), nil, false)
@@ -661,6 +671,10 @@ func (x *seqX) step(n *seqNode, ei int, report bool) (*seqNode, bool) {
 		return nn, false
 	}
 	m.step(v, h, graded, entries)
+	if ev.burn != 0 && h < era.V20 {
+		// burns are credited after the block's transactions
+		m.add(hx(AddrA), "pFCT", ev.burn)
+	}
 	if report {
 		r.Transitions++
 	}
@@ -774,7 +788,7 @@ func (x *seqX) step(n *seqNode, ei int, report bool) (*seqNode, bool) {
 			} else if len(balDiff) > 0 {
 				kind = "status+balance"
 			}
-			r.Violate(core.Violation{Key: key, Signature: fmt.Sprintf("%s:seq:%s-differs-from-reference:%s:last=%s", x.prop, kind, era.Name, ev.name),
+			r.Violate(core.Violation{Key: key, Signature: fmt.Sprintf("%s:seq:%s-differs-from-reference:%s", x.prop, kind, era.Name),
 				Desc:   fmt.Sprintf("era %s, block sequence %s (height %d): the ledger differs from the reference ledger [%s]", era.Name, strings.Join(nn.names, "."), h, strings.Join(tl, ",")),
 				Detail: append(statusDiff, balDiff...)})
 		}
